@@ -357,6 +357,10 @@ func fastDecode(cfg WCfg, b []byte) ([]byte, error) {
 // decoders the property names. Returns "" when fine.
 func checkCompleteStream(cfg WCfg, b, want []byte) string {
 	out, err := stdDecode(cfg, b)
+	if len(cfg.Dict) > 0 && bytes.Equal(out, append(append([]byte{}, cfg.Dict...), want...)) {
+		// F-C01-1 (for zlib the symptom is a checksum error after dict ++ data has been delivered)
+		return fmt.Sprintf("dict-prepended: compress/%s decodes to the %d dictionary bytes followed by the %d data bytes (%v)", cfg.Pkg, len(cfg.Dict), len(want), err)
+	}
 	if err != nil {
 		return fmt.Sprintf("compress/%s cannot decode the emitted stream: %v (got %d of %d bytes)", cfg.Pkg, err, len(out), len(want))
 	}
